@@ -94,11 +94,12 @@ type G struct {
 
 	site      string
 	blockedOn string
-	blockPC   uintptr
+	blockPCs  [8]uintptr
+	blockN    int
 
 	// spin detection (see Select)
 	spinSite    int
-	spinCase    int
+	spinMask    uint32
 	passiveOnly bool
 	spinBlocked bool
 
@@ -134,6 +135,7 @@ type Outcome struct {
 	Aborted  string   // framework-level abort reason (step cap)
 	Fails    []string // violations recorded in-execution by the harness (Fail)
 	FinalKey uint64   // state key at the end of the execution
+	Trace    []string // operation trace (only when Options.Trace)
 }
 
 // Exec is one controlled execution.
@@ -183,7 +185,7 @@ func Exiting() bool { return ex != nil && ex.exiting }
 
 // Epoch identifies the current execution; sync shims reset their model state when it changes.
 func Epoch() uint64 {
-	if ex == nil {
+	if !live() {
 		return 0
 	}
 	return ex.epoch
@@ -260,10 +262,18 @@ func (e *Exec) finish(deadlock bool) {
 
 func (g *G) describe() string {
 	where := ""
-	if g.blockPC != 0 {
-		fs := runtime.CallersFrames([]uintptr{g.blockPC})
-		f, _ := fs.Next()
-		where = fmt.Sprintf(" at %s:%d", shortFile(f.File), f.Line)
+	if g.blockN > 0 {
+		fs := runtime.CallersFrames(g.blockPCs[:g.blockN])
+		for {
+			f, more := fs.Next()
+			if !strings.Contains(f.Function, "/verifrt.") && !strings.Contains(f.Function, "/verifrt/") {
+				where = fmt.Sprintf(" at %s:%d", shortFile(f.File), f.Line)
+				break
+			}
+			if !more {
+				break
+			}
+		}
 	}
 	return fmt.Sprintf("g%d[%s] %s%s", g.id, g.site, g.blockedOn, where)
 }
@@ -360,6 +370,9 @@ func yield() *G {
 	}
 	g := e.cur
 	e.steps++
+	if e.opts.Trace {
+		e.traceOp(g)
+	}
 	if e.steps > e.opts.MaxSteps {
 		e.out.Aborted = fmt.Sprintf("step cap %d reached", e.opts.MaxSteps)
 		e.finish(false)
@@ -416,6 +429,28 @@ func yield() *G {
 	return g
 }
 
+func (e *Exec) traceOp(g *G) {
+	var pcs [8]uintptr
+	n := runtime.Callers(3, pcs[:])
+	fs := runtime.CallersFrames(pcs[:n])
+	op, where := "", ""
+	for {
+		f, more := fs.Next()
+		if strings.Contains(f.Function, "/verifrt.") || strings.Contains(f.Function, "/verifrt/") {
+			op = f.Function[strings.LastIndex(f.Function, "verifrt")+8:]
+		} else {
+			where = fmt.Sprintf("%s:%d", shortFile(f.File), f.Line)
+			break
+		}
+		if !more {
+			break
+		}
+	}
+	if len(e.out.Trace) < 100000 {
+		e.out.Trace = append(e.out.Trace, fmt.Sprintf("g%d[%s] %s @%s", g.id, g.site, op, where))
+	}
+}
+
 // leave is called when the current goroutine blocks or exits: hand the token to the next one.
 func (e *Exec) leave() {
 	cands := e.candidates(nil)
@@ -444,16 +479,13 @@ func (e *Exec) leave() {
 func (e *Exec) block(g *G, what string) {
 	g.state = stBlocked
 	g.blockedOn = what
-	var pcs [1]uintptr
-	if runtime.Callers(3, pcs[:]) > 0 {
-		g.blockPC = pcs[0]
-	}
+	g.blockN = runtime.Callers(3, g.blockPCs[:])
 	e.touchG(g)
 	e.leave()
 	e.park(g)
 	g.state = stRunning
 	g.blockedOn = ""
-	g.blockPC = 0
+	g.blockN = 0
 	g.spinBlocked = false
 }
 
@@ -485,7 +517,7 @@ func callerSite(skip int) string {
 
 // Go starts f as a new goroutine of the execution.
 func Go(f func()) {
-	if ex == nil {
+	if !live() {
 		go f()
 		return
 	}
@@ -535,7 +567,7 @@ func stack() string {
 
 // Choose is an environment choice among n alternatives; all are explored, none costs budget.
 func Choose(n int) int {
-	if ex == nil {
+	if !live() {
 		return 0
 	}
 	g := yield()
@@ -552,7 +584,7 @@ func Choose(n int) int {
 
 // WaitIdle returns when no other goroutine is runnable (quiescence).
 func WaitIdle() {
-	if ex == nil {
+	if !live() {
 		return
 	}
 	e := ex
@@ -568,7 +600,7 @@ func WaitIdle() {
 
 // Yield is a plain scheduling point (for harness polling loops).
 func Yield() {
-	if ex == nil {
+	if !live() {
 		runtime.Gosched()
 		return
 	}
@@ -577,7 +609,7 @@ func Yield() {
 
 // Log appends an observation to the execution's log.
 func Log(format string, a ...any) {
-	if ex == nil {
+	if !live() {
 		return
 	}
 	if len(a) == 0 {
@@ -592,7 +624,7 @@ func Log(format string, a ...any) {
 // caching (a pruned execution would have computed the same verdicts as the one that first
 // reached the state).
 func Fail(format string, a ...any) {
-	if ex == nil {
+	if !live() {
 		return
 	}
 	ex.out.Fails = append(ex.out.Fails, fmt.Sprintf(format, a...))
@@ -601,7 +633,7 @@ func Fail(format string, a ...any) {
 // LiveRepoGoroutines returns descriptions of live goroutines created by repository code.
 func LiveRepoGoroutines() []string {
 	var out []string
-	if ex == nil {
+	if !live() {
 		return out
 	}
 	for _, g := range ex.gs {
@@ -620,7 +652,7 @@ func LiveRepoGoroutines() []string {
 // LiveSpinners returns goroutines currently spinning on a permanently ready select case.
 func LiveSpinners() []string {
 	var out []string
-	if ex == nil {
+	if !live() {
 		return out
 	}
 	for _, g := range ex.gs {
@@ -641,6 +673,7 @@ type Options struct {
 	MaxSteps  int // per-execution step cap (default 200000)
 	MaxExecs  int // 0 = no cap
 	Deadline  time.Time
+	Trace     bool // record an operation trace in the outcome (replay only)
 }
 
 func run(prefix []int, opts *Options, cache *Cache, body func()) *Outcome {
@@ -688,4 +721,17 @@ func run(prefix []int, opts *Options, cache *Cache, body func()) *Outcome {
 	e.out.Points = e.points
 	e.out.Steps = e.steps
 	return &e.out
+}
+
+// live reports whether an execution is in progress; a goroutine of an execution that is being
+// torn down (it is running its deferred calls after Goexit) ends here, before touching any
+// runtime state.
+func live() bool {
+	if ex == nil {
+		return false
+	}
+	if ex.exiting {
+		runtime.Goexit()
+	}
+	return true
 }
